@@ -1,5 +1,49 @@
-import QlibcModel.Encode.Model
+/-
+  C17 — decoders and parsers are memory-safe and terminate on arbitrary input (decoder half;
+  the parser half is in Props/C17Parsers.lean when present).
+
+  For EVERY NUL-free input string `s` the in-place decoders, run on the buffer `s ++ [0]`
+  through checked reads and writes (`rd`/`wr`), return `.ok`: no access outside the buffer,
+  no `outOfFuel`; they produce at most `|s|` bytes and terminate the result.
+-/
+import QlibcModel.Encode.Base64
+import QlibcModel.Encode.Query
+
 namespace Qlibc.Props.C17
-open Qlibc.Generated
-theorem b64MapTbl_length : b64MapTbl.length = 256 := by decide +kernel
+open Qlibc Qlibc.Encode Qlibc.Generated
+
+theorem urlDecode_safe (s : Bytes) (hnz : ∀ c ∈ s, c ≠ 0) :
+    ∃ buf n, urlDecodeRaw (s ++ [0]) = .ok (buf, n) ∧ n ≤ s.length ∧ buf[n]? = some 0 := by
+  obtain ⟨stale, h⟩ := urlDecodeRaw_spec s hnz
+  exact ⟨_, _, h, urlDecPure_length_le s, by simp⟩
+
+theorem b64Decode_safe (s : Bytes) (hnz : ∀ c ∈ s, c ≠ 0) :
+    ∃ buf n, b64DecodeRaw (s ++ [0]) = .ok (buf, n) ∧ n ≤ s.length ∧ buf[n]? = some 0 := by
+  obtain ⟨stale, h⟩ := b64DecodeRaw_spec s hnz
+  exact ⟨_, _, h, b64DecPure_length_le 0 0 s, by simp⟩
+
+theorem hexDecode_safe (s : Bytes) (hnz : ∀ c ∈ s, c ≠ 0) :
+    ∃ buf n, hexDecodeRaw (s ++ [0]) = .ok (buf, n) ∧ n ≤ s.length ∧ buf[n]? = some 0 := by
+  obtain ⟨stale, h⟩ := hexDecodeRaw_spec s hnz
+  exact ⟨_, _, h, hexDecPure_length_le s, by simp⟩
+
+/-- the query-string parser delivers a result for every NUL-free input and any separators -/
+theorem parseQueries_safe (q : Bytes) (eq sep : UInt8) (hnz : ∀ d ∈ q, d ≠ 0) :
+    ∃ ps, parseQueries q eq sep = .ok ps := parseQueries_total q eq sep hnz
+
+/-- `_q_makeword` never lengthens its input: word and remainder are made of input bytes -/
+theorem makeword_safe (q : Bytes) (stop : UInt8) :
+    (makeword q stop).1.length + (makeword q stop).2.length ≤ q.length := by
+  simp only [makeword, List.length_drop]
+  have := (List.takeWhile_sublist (fun x => x != stop) (l := q)).length_le
+  omega
+
+/-- the byte-indexed tables have 256 entries -/
+theorem table_lengths : b64MapTbl.length = 256 ∧ hexMapTbl.length = 256 := by decide +kernel
+
+-- non-vacuity: a truncated escape, an odd-length hex string, stray padding
+example : urlDecodeRaw ([37, 52] ++ [0]) = .ok ([37, 52, 0], 2) := by rfl
+example : hexDecodeRaw ([48, 49, 50] ++ [0]) = .ok ([1, 0, 50, 0], 1) := by rfl
+example : ∀ c ∈ ([61, 65, 61] : Bytes), c ≠ 0 := by decide
+
 end Qlibc.Props.C17
